@@ -70,7 +70,7 @@ def run(ses, protos=None):
     jobs = [(job_roundtrip, (p, f, a)) for p in protos for f, a in variants(p, ses.tier)]
     jobs += upper.roundtrip_jobs(protos, ses.tier)
     from .. import coreapi
-    jobs.append((coreapi.job_core_api, ()))        # newtype constructors, builder(), setters, Clone: what the caller writes reaches the entry point unchanged
+    jobs.append((coreapi.job_core_api, ())); jobs.append((coreapi.job_key_ctors, ()))        # newtype constructors, builder(), setters, Clone: what the caller writes reaches the entry point unchanged
     from .. import kani as _kani
     jobs.append((_kani.job_le64, ()))        # the PAE length prefix is a summary in the SMT runs: Kani checks le64 itself on the compiled code (all 2^64 inputs)
     run_jobs(ses, jobs)
